@@ -427,19 +427,6 @@ func (lm *levelManager) compactL0() {
 		lm.levels[1].Remove(e)
 	}
 
-	// delete old sstables from L0
-	for _, e := range l0Tables {
-		if err := os.Remove(lm.fileName(0, e.Value.(tableHandle).levelIdx)); err != nil {
-			lm.logger.Panicf("failed to delete old sstable: %v", err)
-		}
-	}
-	// delete old sstables from L1
-	for _, e := range l1Tables {
-		if err := os.Remove(lm.fileName(1, e.Value.(tableHandle).levelIdx)); err != nil {
-			lm.logger.Panicf("failed to delete old sstable: %v", err)
-		}
-	}
-
 	// write new sstable
 	fd, err := os.OpenFile(lm.fileName(1, th.levelIdx), os.O_CREATE|os.O_RDWR|os.O_TRUNC, 0600)
 	if err != nil {
@@ -454,6 +441,23 @@ func (lm *levelManager) compactL0() {
 	_, err = fd.Write(tableBytes)
 	if err != nil {
 		lm.logger.Panicf("failed to write sstable: %v", err)
+	}
+	// the merged table must be on disk before the tables it replaces are deleted
+	if err = fd.Sync(); err != nil {
+		lm.logger.Panicf("failed to sync sstable: %v", err)
+	}
+
+	// delete old sstables from L0
+	for _, e := range l0Tables {
+		if err := os.Remove(lm.fileName(0, e.Value.(tableHandle).levelIdx)); err != nil {
+			lm.logger.Panicf("failed to delete old sstable: %v", err)
+		}
+	}
+	// delete old sstables from L1
+	for _, e := range l1Tables {
+		if err := os.Remove(lm.fileName(1, e.Value.(tableHandle).levelIdx)); err != nil {
+			lm.logger.Panicf("failed to delete old sstable: %v", err)
+		}
 	}
 }
 
@@ -512,17 +516,6 @@ func (lm *levelManager) compactLN(n int) {
 		lm.levels[n+1].Remove(e)
 	}
 
-	// delete old sstables from LN
-	if err := os.Remove(lm.fileName(n, lnTable.Value.(tableHandle).levelIdx)); err != nil {
-		lm.logger.Panicf("failed to delete old sstable: %v", err)
-	}
-	// delete old sstables from LN+1
-	for _, e := range ln1Tables {
-		if err := os.Remove(lm.fileName(n+1, e.Value.(tableHandle).levelIdx)); err != nil {
-			lm.logger.Panicf("failed to delete old sstable: %v", err)
-		}
-	}
-
 	// write new sstable
 	fd, err := os.OpenFile(lm.fileName(n+1, th.levelIdx), os.O_CREATE|os.O_RDWR|os.O_TRUNC, 0600)
 	if err != nil {
@@ -537,6 +530,21 @@ func (lm *levelManager) compactLN(n int) {
 	_, err = fd.Write(tableBytes)
 	if err != nil {
 		lm.logger.Panicf("failed to write sstable: %v", err)
+	}
+	// the merged table must be on disk before the tables it replaces are deleted
+	if err = fd.Sync(); err != nil {
+		lm.logger.Panicf("failed to sync sstable: %v", err)
+	}
+
+	// delete old sstables from LN
+	if err := os.Remove(lm.fileName(n, lnTable.Value.(tableHandle).levelIdx)); err != nil {
+		lm.logger.Panicf("failed to delete old sstable: %v", err)
+	}
+	// delete old sstables from LN+1
+	for _, e := range ln1Tables {
+		if err := os.Remove(lm.fileName(n+1, e.Value.(tableHandle).levelIdx)); err != nil {
+			lm.logger.Panicf("failed to delete old sstable: %v", err)
+		}
 	}
 }
 
